@@ -176,8 +176,11 @@ class Check:
         path = os.path.join(LEAN, '.lake', 'build', 'bin', exe)
         if not lines:
             return []
-        if not os.path.exists(path):
-            self.build([exe])
+        # once per process: make sure the driver is the one of the CURRENT Lean sources (a replay does not go through `prove`)
+        fresh = getattr(self, '_fresh_drivers', None)
+        if fresh is None: fresh = self._fresh_drivers = set()
+        if exe not in fresh or not os.path.exists(path):
+            self.build([exe]); fresh.add(exe)
         if not os.path.exists(path):
             raise RuntimeError(f'model driver {exe} could not be built:\n{self.build_log[-800:]}')
         rc, out, err = sh([path], inp='\n'.join(lines) + '\n', timeout=timeout)
